@@ -472,8 +472,12 @@ def aggregate(prop, tier, seed, results, t_start, write_baseline, extra_mod, qui
     counted = [ob for ob in obligations if ob['id'] not in in_region]
     discharged = [ob for ob in counted if ob['verdict'] == 'proved']
     n_obl, n_dis = len(counted), len(discharged)
-    meta = getattr(extra_mod, 'META', {}) if extra_mod else {}
-    claimed = meta.get('level', 'proof')
+    meta = dict(getattr(extra_mod, 'META', {}) if extra_mod else {})
+    try:
+        from props.registry import CLAIMS
+        claimed = CLAIMS.get(prop, {}).get('category', meta.get('level', 'proof'))
+    except Exception:
+        claimed = meta.get('level', 'proof')
     level = claimed if (n_obl > 0 and n_dis == n_obl and claimed == 'proof') else ('other' if claimed == 'proof' else claimed)
     samples = [{'obligation': ob['id'], 'verdict': ob['verdict'], 'backend': ob.get('backend'), 'seconds': ob.get('seconds')}
                for ob in (discharged[:4] + [o for o in counted if o['verdict'] != 'proved'][:4])]
